@@ -17,7 +17,7 @@ RULE = ("[cold start] fresh interpreters whose very first parses run on 8 thread
         "charts of every failure class (missing section, bad header, MissingRequiredField, bad Player2 after other fields, forced first note, zero tempo, unordered tempo); "
         "(i) each text is parsed in a FRESH interpreter (one subprocess each); (ii) the texts are parsed in this process in random orders with repetitions (2-3 passes), failing texts "
         "interleaved; (iii) 8 threads parse texts concurrently (switch interval 1 us, barrier start); every in-process / threaded result is compared inside Coq with the fresh-interpreter "
-        "result of the same text and with the model. Non-trivial: every in-process parse that is preceded by at least one parse of a different text; distinct by (text, position in history)")
+        "result of the same text and with the model; a chart parsed again from the same text must also be == (both ways) to the first one, which has meanwhile been looked at (derived attributes, a rate query, str/repr). Non-trivial: every in-process parse that is preceded by at least one parse of a different text; distinct by (text, position in history)")
 ASSUMPTIONS = ["thread pre-emption inside the interpreter and fresh-interpreter equality cannot be exhibited by a Gallina model; they are exercised by this correspondence only (the theorems cover "
                "all histories and all interleavings at memoised-call granularity, with arbitrary eviction)"]
 
@@ -121,6 +121,26 @@ def threaded(items, fresh_terms):
     return results
 
 
+def look_at(ch):
+    """Read-only use of a chart: derived attributes of every track and event, a rate query per track."""
+    try:
+        ch.sync_track.header_tag, ch.global_events_track.header_tag, ch.metadata.header_tag
+        for i, inner in ch.instrument_tracks.items():
+            for d, tr in inner.items():
+                tr.last_note_end_timestamp, tr.header_tag
+                for e in tr.note_events:
+                    e.longest_sustain, e.end_tick
+                for e in tr.star_power_events:
+                    e.end_tick
+                try:
+                    ch.notes_per_second(i, d)
+                except ValueError:
+                    pass
+        str(ch), repr(ch)
+    except Exception:  # noqa: BLE001  (C19 judges these operations; here they only have to have happened)
+        pass
+
+
 def big_chart(rng, n_phr):
     """Many star-power phrases and notes, several tempo changes: every lazily filled table is exercised many times."""
     body = []
@@ -159,6 +179,7 @@ def run(ctx, only=None):
     fr = fresh(texts)
     cases = []
     pos = 0
+    kept = {}
     for p in range(2 if quick else 3):
         order = list(range(len(texts)))
         rng.shuffle(order)
@@ -166,8 +187,19 @@ def run(ctx, only=None):
             order += [rng.randrange(len(texts)) for _ in range(len(texts) // 3)]
         for i in order:
             text, want = texts[i]
-            _, _, out = parse_case(text, want)
-            cases.append(make(text, want, fr[i], out, "history", pos))
+            ch, _, out = parse_case(text, want)
+            mode = "history"
+            if ch is not None:
+                # "an equal chart": the chart parsed now must be == to the one parsed from the same text earlier in this process, also
+                # after that earlier chart has been looked at (derived attributes read, a rate asked for)
+                key = (text, repr(want))
+                if key in kept:
+                    if not (ch == kept[key] and kept[key] == ch):
+                        out, mode = "(Err EOther)", "history_py_eq_failed"
+                else:
+                    kept[key] = ch
+                    look_at(ch)
+            cases.append(make(text, want, fr[i], out, mode, pos))
             pos += 1
     # threads: only texts whose fresh result has no log records
     quiet = [i for i in range(len(texts)) if fr[i].startswith("(Err") or fr[i].rstrip().endswith(", []))")]
